@@ -464,7 +464,8 @@ impl WorldC {
                 obs.count(&format!("fault.socket_error_{}_{:?}", if op.b % 2 == 0 { "send" } else { "recv" }, kind));
                 let mut st = self.net.0.borrow_mut();
                 if op.b % 2 == 0 {
-                    st.send_err.insert(addr, kind);
+                    let peer = if who == 0 { self.slots[op.d as usize % ns].addr } else { self.server_addr };
+                    st.send_err.insert((addr, peer), kind);
                 } else {
                     st.recv_err.insert(addr, kind);
                 }
@@ -523,7 +524,7 @@ impl WorldC {
             9 => Op::new(K_NEWCLIENT, j as u64, 0, 0, 0),
             10 => Op::new(K_MUTATE, j as u64, dir as u64, rng.below(in_flight.max(1) as u64), rng.next() >> 20),
             11 => Op::new(K_REPLAY, rng.next() >> 20, rng.below(4), rng.below(ns), 0),
-            12 => Op::new(K_SOCKERR, rng.below(ns + 1), rng.below(2), rng.below(4), 0),
+            12 => Op::new(K_SOCKERR, rng.below(ns + 1), rng.below(2), rng.below(4), rng.below(ns)),
             _ => Op::new(K_CRASH, j as u64, 0, 0, 0),
         }
     }
